@@ -26,7 +26,7 @@ func TestSyskillHelper(t *testing.T) {
 // a part of the shard's case budget: cases beyond it return at once.
 func syskillBudget() (cases int, pointsPerCase int) {
 	if thorough() {
-		return envInt("VERIF_SYSKILL_CASES", 150), 0 // every point of every case
+		return envInt("VERIF_SYSKILL_CASES", 80), 0 // every point of every case
 	}
 	return envInt("VERIF_SYSKILL_CASES", 6), 24
 }
